@@ -294,14 +294,21 @@ def run_frame(case, ctx):
             for m in spec.methods:
                 if m == "predict_leaves" and not hasattr(est, "leaves_index_"):
                     continue
-                if not isinstance(Q, numpy.ndarray) or Q.ndim != 2:
+                import pandas as _pd
+                if isinstance(Q, _pd.DataFrame) and Q.shape[1] >= 2:
+                    # a frame that lacks one of the columns seen at fit time (each in turn), a frame with other names
+                    bads = [Q.drop(columns=[c_]) for c_ in Q.columns[:3]] + [
+                        Q.rename(columns={c_: "zz_%s" % c_ for c_ in Q.columns}), None]
+                elif isinstance(Q, numpy.ndarray) and Q.ndim == 2:
+                    bads = [numpy.ones((3, Q.shape[1] + 2)), None]
+                else:
                     break
                 try:
                     ref_m = spec.outputs(est, Q, [m])[m]
                 except Exception:
                     continue
                 p1 = params_fp(est)
-                for bad in (numpy.ones((3, Q.shape[1] + 2)), None):
+                for bad in bads:
                     try:
                         getattr(est, m)(bad)
                         continue
